@@ -1,5 +1,10 @@
 #![allow(dead_code)]
+mod c11;
+mod c12;
 mod c16;
+mod eng;
+mod lark;
+mod rx;
 mod c17;
 mod engine;
 mod model;
@@ -33,6 +38,20 @@ struct Prop {
 
 fn props() -> Vec<Prop> {
     vec![Prop {
+        id: "C11",
+        rule: "case = (grammar: hand-written family or random Lark grammar; vocabulary: single-byte / synthetic multi-byte; seeded history of commits, read-only queries, invalidations, clones, rollbacks, resets); at every state the mask is compared with a second computation, with the one after invalidate_bias_cache and with a fresh replay; distinct non-trivial = distinct (grammar, committed tokens) with a mask that is neither a single token nor the whole vocabulary",
+        quick_cases: 60,
+        thorough_cases: 900,
+        gen: c11::gen_case,
+        run: c11::run_case,
+    }, Prop {
+        id: "C12",
+        rule: "case = (grammar, vocabulary, seeded nested sequence of commits / rollbacks k / resets, EOS commits included); after every rollback all observables and six steps of continuation are compared with a fresh replay; distinct non-trivial = distinct (grammar, surviving tokens, k)",
+        quick_cases: 60,
+        thorough_cases: 900,
+        gen: c12::gen_case,
+        run: c12::run_case,
+    }, Prop {
         id: "C16",
         rule: "even cases: random op sequences over three SimpleVob registers with sizes around 31/32/33/63/64/...; odd cases: random vocabularies (duplicates, empties, prefixes, marker tokens, long chains, 256-way fan-out) x random DFAs x start prefixes; distinct non-trivial = distinct (op, resulting register) pairs, distinct vocabularies, and distinct (vocab, dfa, start) with a mask that is neither empty nor full",
         quick_cases: 120,
